@@ -50,6 +50,8 @@ TrOutcome ==
         /\ Ln.vErrs = errs["v"]
         /\ Ln.vNodeFailed = (\E i \in Nodes : nst["v"][i] = "failed")
         /\ Ln.bNodeFailed = FALSE
+        /\ Ln.writeBlocked = FALSE     \* ingestion is never blocked by a dead task (Write stays enabled) ...
+        /\ Ln.bFlood = Ln.flood        \* ... and the bystander receives every further point
         /\ Ln.stopReturned = TRUE      \* AllTerminate: StopTask returns ...
         /\ Ln.leaked = 0                \* ... and no pipeline goroutine is left
     /\ armed' = FALSE
